@@ -467,6 +467,31 @@ c08_ecall_behind_transfer("beq+12", lambda: [BEQ(R("b_rs1"), R("b_rs2"), 12)])
 c08_ecall_behind_transfer("jal+12", lambda: [JAL(sym_int("j_rd", 0, 4), 12, 12)])
 
 
+def c08_consumer_behind_draining_ecall(pn, cn):
+    @unit("C08/ecall-drain/%s-then-ecall-then-%s" % (pn, cn), expect_reach=("finished",))
+    def u():
+        """hazard detection off: an ecall waits in EX until the older instructions have left MEM; the instruction behind
+        it waits in ID meanwhile and is decoded again in every cycle of that wait, so what it carries into EX is the
+        register file as the older instructions left it ("observes exactly the writes completed by that cycle").  With
+        an ecall between producer and consumer every older write has completed: results equal single-cycle mode, for
+        every register aliasing (the producer may write a0, which the ecall prints)."""
+        from contracts.c02_pipeline import equivalence
+
+        def prog():
+            p = PRODUCERS[pn]()
+            assume(p.rd != 17)          # (a7 selects the service; it stays "print a0 as integer")
+            return [p, ECALL(), CONSUMERS[cn](), NOP(), NOP(), ADD(R("t_rd"), R("t_rs1"), R("t_rs2"))]
+
+        def prep(st):
+            st.register_file.registers[17] = UInt32(1)
+        equivalence(prog, detect=False, prepare=prep, steps_b=60, steps_a=30)
+
+
+for _pn in ("add", "lw"):
+    for _cn in ("add", "sw"):
+        c08_consumer_behind_draining_ecall(_pn, _cn)
+
+
 @unit("C08/canary/distance-2-sees-new-value", canary=True)
 def canary_c08():
     st, regs0 = havoc_state("five_stage_pipeline", False)
